@@ -326,6 +326,21 @@ func corrC13(c *corrCtx) {
 	for i := 0; i < 6; i++ {
 		whites = append(whites, ciexyz.Color{X: float32(0.1 + 1.9*r.f64()), Y: float32(0.1 + 1.9*r.f64()), Z: float32(0.1 + 1.9*r.f64())})
 	}
+	// the same illuminants as other sources tabulate them — near the library's constants but not equal to them: the ICC
+	// PCS illuminant, the xyY constants converted, ASTM E308 values, four-figure roundings, a few ulps or 1e-4 away.
+	// A reference white is whatever the caller passes.
+	near := []ciexyz.Color{{X: 0.9642, Y: 1, Z: 0.8249}, ciexyz.ColorFromXYY(ciexyy.D50), ciexyz.ColorFromXYY(ciexyy.D65),
+		{X: 0.9505, Y: 1, Z: 1.0891}, {X: 0.95047, Y: 1, Z: 1.08883}, {X: 0.96422, Y: 1, Z: 0.82521}, {X: 0.9643, Y: 1, Z: 0.8251}}
+	for _, base := range []ciexyz.Color{ciexyz.D50, ciexyz.D65} {
+		near = append(near,
+			ciexyz.Color{X: math.Float32frombits(fb(base.X) + 1), Y: base.Y, Z: math.Float32frombits(fb(base.Z) - 2)},
+			ciexyz.Color{X: base.X + 1e-4, Y: base.Y, Z: base.Z - 3e-4},
+			ciexyz.Color{X: base.X - 4e-4, Y: base.Y + 2e-4, Z: base.Z + 4e-4})
+	}
+	whites = append(whites, near[r.intn(3)], near[3+r.intn(4)], near[7+r.intn(len(near)-7)])
+	if c.thorough() {
+		whites = append(whites, near...)
+	}
 	worstAcc, worstRT := 0.0, 0.0
 	check := func(class string, col, w ciexyz.Color) {
 		lab := emitToLab(c, class, col, w)
